@@ -56,6 +56,9 @@ type Case struct {
 	SubSec           bool `json:",omitempty"` // Expiration is 500ms (below the limiter's one-second resolution); the history then has no clock advances
 }
 
+// keygenHook, when set, runs inside the KeyGenerator callback (a yield point for the cooperative scheduler)
+var keygenHook func(key string)
+
 func newLimiter(c Case, st *vk.Storage, onHandler func(fiber.Ctx)) *fiber.App {
 	cfg := limiter.Config{
 		Max: c.Max, Expiration: expiration(c),
@@ -66,7 +69,12 @@ func newLimiter(c Case, st *vk.Storage, onHandler func(fiber.Ctx)) *fiber.App {
 			}
 			return n
 		},
-		KeyGenerator:           func(ctx fiber.Ctx) string { return ctx.Query("k") },
+		KeyGenerator: func(ctx fiber.Ctx) string {
+			if keygenHook != nil {
+				keygenHook(ctx.Query("k")) // (a key generator may take its time: a lookup, a parsed token)
+			}
+			return ctx.Query("k")
+		},
 		SkipSuccessfulRequests: c.SkipOK, SkipFailedRequests: c.SkipFail,
 	}
 	if c.Algo == "sliding" {
@@ -345,6 +353,8 @@ type ConcCase struct {
 	Statuses         []int    // status the handler answers for the i-th concurrent request
 	Picks            []int    // scheduler choices
 	Tail             int      // sequential requests (status 200 / 500 so that they are never skipped) sent per key after the phase
+	Park             bool     `json:",omitempty"` // with Tick: request 0 is held in its key generator while the clock moves on and all others complete
+	Tick             bool     `json:",omitempty"` // one more task: the clock moves on by a whole window (60 s) at a point the schedule picks
 }
 
 func (c ConcCase) skipped(status int) bool {
@@ -377,6 +387,23 @@ func checkConc(c ConcCase) vk.Verdict {
 		s.Yield("handler>" + k)
 	})
 	app.Handler()
+	keygenHook = func(k string) {
+		if sc := s; sc != nil {
+			sc.Yield("keygen<" + k)
+		}
+	}
+	defer func() { keygenHook = nil }()
+	type answer struct {
+		key        string
+		status     int
+		retryAfter string
+	}
+	var answers []answer
+	note := func(k string, r *fasthttp.RequestCtx) {
+		mu.Lock()
+		answers = append(answers, answer{k, r.Response.StatusCode(), string(r.Response.Header.Peek("Retry-After"))})
+		mu.Unlock()
+	}
 	for i, k := range c.Keys {
 		i, k := i, k
 		status := 200
@@ -384,11 +411,54 @@ func checkConc(c ConcCase) vk.Verdict {
 			status = c.Statuses[i]
 		}
 		s.Spawn(i, func() {
-			vk.Do(app, "GET", fmt.Sprintf("/?k=%s&lim=%d&st=%d", k, c.Limit, status))
+			note(k, vk.Do(app, "GET", fmt.Sprintf("/?k=%s&lim=%d&st=%d", k, c.Limit, status)))
 		})
 	}
+	ntasks := len(c.Keys)
+	if c.Tick {
+		sc := s
+		s.Spawn(ntasks, func() {
+			sc.Yield("tick<")
+			vk.Advance(60)
+			sc.Yield("tick>")
+		})
+		ntasks++
+	}
 	pi := 0
-	res := s.Run(len(c.Keys), func(ready []int) int {
+	res := s.Run(ntasks, func(ready []int) int {
+		if c.Tick && c.Park {
+			// request 0 is held up inside its key generator; the clock moves on; everybody else runs to completion; then
+			// request 0 goes on
+			held := false
+			for _, e := range s.Trace {
+				if strings.HasPrefix(e, "0@keygen<") {
+					held = true
+				}
+			}
+			idx := func(g int) int {
+				for i, r := range ready {
+					if r == g {
+						return i
+					}
+				}
+				return -1
+			}
+			if !held {
+				if i := idx(0); i >= 0 {
+					return i
+				}
+				return 0
+			}
+			if i := idx(len(c.Keys)); i >= 0 {
+				return i // the clock task
+			}
+			for i, r := range ready {
+				if r != 0 {
+					return i
+				}
+			}
+			return 0
+		}
 		p := 0
 		if pi < len(c.Picks) {
 			p = c.Picks[pi]
@@ -418,10 +488,28 @@ func checkConc(c ConcCase) vk.Verdict {
 	}
 	for k := range perKey {
 		for j := 0; j < c.Tail; j++ {
-			vk.Do(app, "GET", fmt.Sprintf("/?k=%s&lim=%d&st=%d", k, c.Limit, tailStatus))
+			note(k, vk.Do(app, "GET", fmt.Sprintf("/?k=%s&lim=%d&st=%d", k, c.Limit, tailStatus)))
+		}
+	}
+	// whatever the schedule and wherever the clock moved on: a rejection names a wait of at most one window, and a key
+	// that sent no more requests than its limit in all was never out of budget (each window holds at most that many hits,
+	// the previous window's hits weigh at most 1)
+	for _, a := range answers {
+		if a.status != fiber.StatusTooManyRequests {
+			continue
+		}
+		if ra, err := strconv.Atoi(a.retryAfter); err != nil || ra < 0 || ra > 60 {
+			return vk.Failf("%s (tick=%v): a request of key %s was rejected with Retry-After %q, the window is 60 s long", ctx, c.Tick, a.key, a.retryAfter)
+		}
+		if perKey[a.key]+c.Tail <= c.Limit {
+			return vk.Failf("%s (tick=%v): a request of key %s was rejected although the key sent %d requests in all, limit %d", ctx, c.Tick, a.key, perKey[a.key]+c.Tail, c.Limit)
 		}
 	}
 	overlap := false
+	if c.Tick {
+		// (the counts below are per window; with a clock step in the middle of the phase they do not apply)
+		return vk.Verdict{NonTrivial: true, Classes: []string{"algo:" + c.Algo, "store:" + c.Store, "clock-step-in-the-phase"}}
+	}
 	for k, n := range perKey {
 		// every admitted request that is not given back consumes one unit: at most limit of them may ever reach the handler in
 		// this window; requests that were given back (skip options) do not count
@@ -449,7 +537,7 @@ func checkConc(c ConcCase) vk.Verdict {
 	return vk.Verdict{NonTrivial: overlap, Classes: classes}
 }
 
-var propConc = vk.Register(&vk.Prop[ConcCase]{Property: property, Name: "concurrent", Check: checkConc, Quick: 600, Thorough: 2500,
+var propConc = vk.Register(&vk.Prop[ConcCase]{Property: property, Name: "concurrent", Check: checkConc, Quick: 2400, Thorough: 10000,
 	Gen: func(t *rapid.T) ConcCase {
 		c := ConcCase{Algo: rapid.SampledFrom([]string{"fixed", "sliding"}).Draw(t, "algo"), Store: rapid.SampledFrom([]string{"memory", "vk", "vk", "vk-retain"}).Draw(t, "store"),
 			Limit: rapid.IntRange(1, 3).Draw(t, "limit")}
@@ -465,6 +553,11 @@ var propConc = vk.Register(&vk.Prop[ConcCase]{Property: property, Name: "concurr
 			c.Statuses = append(c.Statuses, rapid.SampledFrom([]int{200, 200, 500}).Draw(t, "status"))
 		}
 		c.Tail = rapid.IntRange(0, 4).Draw(t, "tail")
+		c.Tick = rapid.Bool().Draw(t, "tick")
+		if c.Tick {
+			c.Limit = rapid.IntRange(1, 6).Draw(t, "ticklimit") // (also limits the key never reaches)
+			c.Park = rapid.Bool().Draw(t, "park")
+		}
 		return c
 	}})
 
